@@ -23,6 +23,7 @@
 #include <tlx/multi_timer.hpp>
 #include <tlx/simple_vector.hpp>
 #include <tlx/sort/strings/insertion_sort.hpp>
+#include <tlx/define/verif_probe.hpp>
 #include <tlx/sort/strings/sample_sort_tools.hpp>
 #include <tlx/sort/strings/string_ptr.hpp>
 #include <tlx/thread_pool.hpp>
@@ -217,6 +218,10 @@ void ps5_sample_sort_lcp(const Context& ctx, const Classify& classifier,
     const typename StringPtr::StringSet& strset =
         strptr.flipped() ? strptr.shadow() : strptr.active();
     typedef typename Context::key_type key_type;
+    if (strptr.flipped())
+        TLX_VERIF_PROBE("ps5.lcp_of_flipped_step");
+    else
+        TLX_VERIF_PROBE("ps5.lcp_of_unflipped_step");
 
     size_t b = 0;         // current bucket number
     key_type prevkey = 0; // previous key
@@ -349,12 +354,14 @@ public:
         if (ctx_.enable_sequential_sample_sort && n >= ctx_.smallsort_threshold)
         {
             bktcache_.resize(n * sizeof(std::uint16_t));
+            TLX_VERIF_PROBE("ps5.smallsort.sequential_sample_sort");
             sort_sample_sort(strptr_, depth_);
         }
         else
         {
             mtimer_.start("mkqs");
             sort_mkqs_cache(strptr_, depth_);
+            TLX_VERIF_PROBE("ps5.smallsort.mkqs_toplevel");
         }
 
         // finish wrapper job, handler delete's this
@@ -389,6 +396,10 @@ public:
             size_t n = strptr_.size();
 
             // step 1: select splitters with oversampling
+            if (strptr_.flipped())
+                TLX_VERIF_PROBE("ps5.seq_sample_sort_step.flipped");
+            else
+                TLX_VERIF_PROBE("ps5.seq_sample_sort_step.unflipped");
 
             const size_t oversample_factor = 2;
             const size_t sample_size = oversample_factor * num_splitters;
@@ -605,6 +616,7 @@ public:
         // convert top level of stack into independent jobs
         TLX_LOGC(ctx_.debug_jobs)
             << "Freeing top level of PS5SmallsortJob's sample_sort stack";
+        TLX_VERIF_PROBE("ps5.free_work.sample_sort_level");
 
         typedef SeqSampleSortStep Step;
         Step& s = ss_stack_[ss_front_];
@@ -995,6 +1007,7 @@ public:
         {
             bktcache_.destroy();
             bktcache_.resize(strptr.size() * sizeof(key_type));
+            TLX_VERIF_PROBE("ps5.mkqs.bktcache_reallocated");
         }
 
         // reuse bktcache as keycache
@@ -1119,6 +1132,7 @@ public:
             // convert top level of stack into independent jobs
 
             MKQSStep& ms = ms_stack_[ms_front_];
+            TLX_VERIF_PROBE("ps5.free_work.mkqs_level");
 
             if (ms.idx_ == 0 && ms.num_lt_ != 0)
             {
@@ -1167,6 +1181,7 @@ public:
 
         while (ms_front_ > 0)
         {
+            TLX_VERIF_PROBE("ps5.smallsort.all_done.freed_mkqs_level");
             TLX_LOGC(ctx_.debug_lcp)
                 << "SmallSort[" << depth_ << "] ms_front_: " << ms_front_;
             ms_stack_[--ms_front_].calculate_lcp();
@@ -1174,6 +1189,7 @@ public:
 
         while (ss_front_ > 0)
         {
+            TLX_VERIF_PROBE("ps5.smallsort.all_done.freed_sample_sort_level");
             TLX_LOGC(ctx_.debug_lcp)
                 << "SmallSort[" << depth_ << "] ss_front_: " << ss_front_;
             ss_stack_[--ss_front_].calculate_lcp(ctx_);
@@ -1244,6 +1260,12 @@ public:
         bktcache_.resize(parts_);
 
         psize_ = (strptr.size() + parts_ - 1) / parts_;
+        if (strptr_.flipped())
+            TLX_VERIF_PROBE("ps5.big_step.flipped");
+        else
+            TLX_VERIF_PROBE("ps5.big_step.unflipped");
+        if (parts_ > 1)
+            TLX_VERIF_PROBE("ps5.big_step.multiple_parts");
 
         TLX_LOGC(ctx_.debug_steps)
             << "enqueue depth=" << depth_ << " size=" << strptr_.size()
@@ -1452,6 +1474,7 @@ public:
                         << "Recurse[" << depth_ << "]: = bkt " << bkt[i]
                         << " size " << bktsize << " is done!";
                     StringPtr sp = strptr_.flip(bkt[i], bktsize).copy_back();
+                    TLX_VERIF_PROBE("ps5.big_step.equal_bucket_done");
                     sp.fill_lcp(depth_ +
                                 lcpKeyDepth(classifier_.get_splitter(i / 2)));
                     ctx_.donesize(bktsize);
@@ -1491,6 +1514,7 @@ public:
 
         if (!strptr_.with_lcp)
             bkt_[0].destroy();
+        TLX_VERIF_PROBE("ps5.big_step.distribute_finished");
 
         // release anonymous subjob handle: this may delete the step, do not
         // touch any member afterwards
@@ -1503,6 +1527,7 @@ public:
     void substep_all_done() final
     {
         ScopedMultiTimer smt(ctx_.mtimer, "para_ss");
+        TLX_VERIF_PROBE("ps5.big_step.all_done");
         if (strptr_.with_lcp)
         {
             TLX_LOGC(ctx_.debug_steps)
